@@ -1,4 +1,5 @@
 """C12 - fit_points / fit_function solve the discrete least-squares problem exactly."""
+import copy
 import itertools
 from fractions import Fraction as F
 
@@ -94,13 +95,16 @@ def lstsq_ref(B, Z):
     return sp.solve(sp.matmul(Bt, B), sp.matmul(Bt, Z))
 
 
-def check_fit(res, U, p, W, nodes, Z, kindz, explicit=True, rep="frac"):
+def check_fit(res, U, p, W, nodes, Z, kindz, explicit=True, rep="frac", via=None):
     res.transition()
     n = len(U) - p - 1
     exact = rep == "frac"
     c = lib.Curve(lib.conv(U, rep))
     if W is not None:
         c.weights = lib.conv(W, rep)
+    if via is not None:
+        # the fit is made on a copy of the prepared template (knot vector and weights, no control points yet)
+        c = {"copy": copy.copy, "deepcopy": copy.deepcopy}[via](c)
     pts = lib.points_arg(Z, rep)
     args = [pts, [lib.conv(z, rep) for z in nodes]] if explicit else [pts]
     o = lib.outcome(c.fit_points, *args)
@@ -174,6 +178,9 @@ def run_case(case, res):
             check_fit(res, U, p, W, nodes, al.generic_points(m, None, 1), "generic")
             check_fit(res, U, p, W, nodes, al.generic_points(m, 2), "2d")
             check_fit(res, U, p, W, nodes, [Dgen.value(z) for z in nodes], "in_space_samples")
+            if W is not None:
+                check_fit(res, U, p, W, nodes, [Dgen.value(z) for z in nodes], "in_space_samples_on_copy", via="copy")
+                check_fit(res, U, p, W, nodes, al.generic_points(m, None, 1), "generic_on_deepcopy", via="deepcopy")
             if W is None:
                 for perm, lab in ((list(reversed(nodes)), "reversed"), (nodes[m // 2:] + nodes[:m // 2], "rotated")):
                     check_fit(res, U, p, W, perm, [Dgen.value(z) for z in perm], "in_space_samples_" + lab)
